@@ -328,14 +328,15 @@ def project_call(c: Dict[str, Any], tid: int, api: Optional[Dict[str, Any]] = No
         lines.append({"tid": tid, "ev": "Raise", "reason": REASON.get(rr["reason"], "other"), "rowViolHi": rvh,
                       "lastDistOK": bool(api.get("last_dist_ok", True)), "rowIsLast": bool(api.get("row_is_last", True))})
         n_rows = rr["n_rows"]
-        lines.append({"tid": tid, "ev": "End", "outcome": "RangeErr", "nRows": n_rows, "tail": False,
+        lines.append({"tid": tid, "ev": "End", "outcome": "RangeErr", "nRows": n_rows, "tail": False, "tailFl": [],
                       "reachedMay": True, "nIter": n_iter})
         summ["outcome"] = "RangeErr:" + REASON.get(rr["reason"], "other")
     else:
         e = c["end"]
         n_rows = len(e["rows"])
         tail = n_rows - len(all_rows) == 1
-        lines.append({"tid": tid, "ev": "End", "outcome": "Done", "nRows": n_rows, "tail": bool(tail),
+        tail_fl = sorted(k for k, bit in FLAG.items() if tail and int(e["rows"][-1].flag) & bit)
+        lines.append({"tid": tid, "ev": "End", "outcome": "Done", "nRows": n_rows, "tail": bool(tail), "tailFl": tail_fl,
                       "reachedMay": bool(e["post_r"].x > maxr - band(maxr)), "nIter": n_iter})
         summ["outcome"] = "Done"
     summ["lines"] = len(lines)
